@@ -14,7 +14,7 @@ import (
 
 // C09 — effective DNS rewrites apply every matching exception, in any order.
 
-var c09ShapesFull = []string{"1.1.1.1", "2.2.2.2", "::1", "a.example", "b.example", "NXDOMAIN", "REFUSED", "NOERROR", "NOERROR;;", "NOERROR;NS;x",
+var c09ShapesFull = []string{"1.1.1.1", "2.2.2.2", "::1", "a.example", "b.example", "NOERROR;CNAME;a.example", "NOERROR;CNAME;c.example", "NXDOMAIN", "REFUSED", "NOERROR", "NOERROR;;", "NOERROR;NS;x",
 	"NOERROR;TXT;hello", "NOERROR;MX;10 m.x", "NOERROR;SRV;1 2 3 s.x", "NOERROR;HTTPS;1 h.x alpn=h2", "",
 	// near misses of the structured values: one field differs
 	"NOERROR;HTTPS;1 h.x alpn=h3", "NOERROR;HTTPS;1 h.x", "NOERROR;SVCB;1 h.x alpn=h2", "NOERROR;MX;20 m.x", "NOERROR;MX;10 n.x", "NOERROR;SRV;1 2 4 s.x", "NOERROR;TXT;Hello", "NOERROR;PTR;p.x",
@@ -22,7 +22,7 @@ var c09ShapesFull = []string{"1.1.1.1", "2.2.2.2", "::1", "a.example", "b.exampl
 	"NOERROR;MX;010 m.x", "NOERROR;SRV;01 02 3 s.x", "NOERROR;HTTPS;1 h.x alpn=h2 port=8443", "NOERROR;HTTPS;1 h.x port=8443 alpn=h2", "NOERROR;HTTPS;01 h.x alpn=h2",
 	// parameters that differ in a key with an empty value only
 	"NOERROR;HTTPS;1 h.x alpn=h2 ech=", "NOERROR;HTTPS;1 h.x alpn=h2 no-default-alpn=", "NOERROR;HTTPS;1 h.x alpn=h2 ipv4hint="}
-var c09ShapesReduced = []string{"1.1.1.1", "2.2.2.2", "a.example", "NXDOMAIN", "NOERROR", "NOERROR;MX;10 m.x", ""}
+var c09ShapesReduced = []string{"1.1.1.1", "2.2.2.2", "a.example", "NOERROR;CNAME;a.example", "NXDOMAIN", "NOERROR", "NOERROR;MX;10 m.x", ""}
 
 func c09Alphabet(shapes []string) []string {
 	var alpha []string
